@@ -34,6 +34,9 @@ BASES = {
     'u': ('t:u', ['5', '2020-01-01', 'true']),
     'small': ('t:small', ['1', '50', '99']),
     'pu': ('t:pu', ['5', '42', '2020-01-01', 'true']),
+    # pattern facets on non-string bases: the canonical form of the typed value must match on encode
+    'pint': ('t:pint', ['123', '456', '900']),
+    'pdec': ('t:pdec', ['1.50', '12.25', '0.75']),
 }
 GLOBAL_TYPES = '''<xs:simpleType name="ilist"><xs:list itemType="xs:int"/></xs:simpleType>
 <xs:simpleType name="dlist"><xs:list itemType="xs:decimal"/></xs:simpleType>
@@ -42,6 +45,8 @@ GLOBAL_TYPES = '''<xs:simpleType name="ilist"><xs:list itemType="xs:int"/></xs:s
 <xs:simpleType name="riu"><xs:restriction base="t:iu"><xs:pattern value="[0-9]{1,2}|[0-9]{4}-[0-9]{2}-[0-9]{2}"/></xs:restriction></xs:simpleType>
 <xs:simpleType name="ou"><xs:union memberTypes="t:riu xs:boolean"/></xs:simpleType>
 <xs:simpleType name="pu"><xs:restriction base="t:ou"><xs:pattern value="[0-9]+|[0-9-]+|true|false"/></xs:restriction></xs:simpleType>
+<xs:simpleType name="pint"><xs:restriction base="xs:int"><xs:pattern value="[0-9]{3}"/></xs:restriction></xs:simpleType>
+<xs:simpleType name="pdec"><xs:restriction base="xs:decimal"><xs:pattern value="[0-9]+\.[0-9]{2}"/></xs:restriction></xs:simpleType>
 <xs:simpleType name="small"><xs:restriction base="xs:integer"><xs:minInclusive value="0"/><xs:maxInclusive value="99"/></xs:restriction></xs:simpleType>'''
 
 
@@ -49,7 +54,8 @@ GLOBAL_TYPES = '''<xs:simpleType name="ilist"><xs:list itemType="xs:int"/></xs:s
 def gen_type(rng, depth, counter):
     r = rng.random()
     if depth >= 3 or r < 0.35:
-        return {'k': 'simple', 'base': rng.choice(list(BASES))}
+        base = rng.choice(list(BASES))
+        return {'k': 'simple', 'base': base, 'fixed': rng.choice(BASES[base][1]) if rng.random() < 0.12 else None}
     if r < 0.5:
         base = rng.choice(['ilist', 'dlist']) if rng.random() < 0.4 else rng.choice(list(BASES))
         return {'k': 'sc', 'base': base, 'attrs': gen_attrs(rng, counter, at_least=rng.choice([0, 1]))}
@@ -66,8 +72,9 @@ def gen_attrs(rng, counter, at_least):
     out = []
     for _ in range(rng.randint(at_least, 2)):
         counter[0] += 1
-        out.append({'name': 'a%d' % counter[0], 'base': rng.choice(['int', 'string', 'boolean', 'token', 'ilist', 'small', 'decimal']),
-                    'use': rng.choice(['required', 'optional', 'optional'])})
+        base = rng.choice(['int', 'string', 'boolean', 'token', 'ilist', 'small', 'decimal'])
+        out.append({'name': 'a%d' % counter[0], 'base': base, 'use': rng.choice(['required', 'optional', 'optional']),
+                    'fixed': rng.choice(BASES[base][1]) if rng.random() < 0.15 else None})
     return out
 
 
@@ -80,7 +87,8 @@ def gen_schema(rng):
 
 
 def render_type(t):
-    attrs = ''.join('<xs:attribute name="%s" type="%s"%s/>' % (a['name'], BASES[a['base']][0], ' use="required"' if a['use'] == 'required' else '')
+    attrs = ''.join('<xs:attribute name="%s" type="%s"%s%s/>' % (a['name'], BASES[a['base']][0], ' use="required"' if a['use'] == 'required' else '',
+                                                                  ' fixed="%s"' % a['fixed'] if a.get('fixed') else '')
                     for a in t.get('attrs', []))
     if t['k'] == 'sc':
         return '<xs:complexType><xs:simpleContent><xs:extension base="%s">%s</xs:extension></xs:simpleContent></xs:complexType>' % (BASES[t['base']][0], attrs)
@@ -92,7 +100,8 @@ def render_type(t):
 def render_decl(d, top=False):
     occ = '' if top else ' minOccurs="%d" maxOccurs="%d"' % (d['min'], d['max'])
     if d['type']['k'] == 'simple':
-        return '<xs:element name="%s" type="%s"%s/>' % (d['name'], BASES[d['type']['base']][0], occ)
+        fx = ' fixed="%s"' % d['type']['fixed'] if d['type'].get('fixed') else ''
+        return '<xs:element name="%s" type="%s"%s%s/>' % (d['name'], BASES[d['type']['base']][0], occ, fx)
     return '<xs:element name="%s"%s>%s</xs:element>' % (d['name'], occ, render_type(d['type']))
 
 
@@ -106,10 +115,10 @@ def gen_node(rng, d):
     t = d['type']
     n = {'name': d['name'], 'attrs': {}, 'text': None, 'items': []}
     for a in t.get('attrs', []):
-        if a['use'] == 'required' or rng.random() < 0.5:
-            n['attrs'][a['name']] = rng.choice(BASES[a['base']][1])
+        if a['use'] == 'required' or a.get('fixed') or rng.random() < 0.5:   # (an absent fixed attribute is filled in by decoding)
+            n['attrs'][a['name']] = a.get('fixed') or rng.choice(BASES[a['base']][1])
     if t['k'] in ('simple', 'sc'):
-        n['text'] = rng.choice(BASES[t['base']][1])
+        n['text'] = t.get('fixed') or rng.choice(BASES[t['base']][1])
         return n
     seq = []
     if t['comp'] == 'sequence':
@@ -404,7 +413,7 @@ def lex(v):
 
 def norm_lex(base, text):
     """typed normal form of a generated lexical value, as the decoders print it (str of the Python value)"""
-    if base in ('int', 'small'):
+    if base in ('int', 'small', 'pint'):
         return str(int(text))
     if base == 'boolean':
         return 'true' if text in ('true', '1') else 'false'
